@@ -9,6 +9,9 @@
 import json, os, subprocess, sys, shutil, time
 
 ALL = [f"C{i:02d}" for i in range(1, 21)]
+# REPO_DIR / VERIF_DIR: evaluate in scratch copies (parallel lanes); default = the real thing
+REPO = os.environ.get("REPO_DIR", "/repo")
+VERIF = os.environ.get("VERIF_DIR", "/verif")
 
 def sh(cmd, cwd=None, timeout=3600):
     r = subprocess.run(cmd, shell=True, cwd=cwd, capture_output=True, text=True, timeout=timeout)
@@ -40,27 +43,27 @@ def confirm(patch, demo):
 def run(d, ids):
     base = d if os.path.isabs(d) else f"/verif/seeded/{d}"
     patch = f"{base}/patch.diff"
-    rc, _ = sh("git -C /repo diff --quiet")
+    rc, _ = sh(f"git -C {REPO} diff --quiet")
     if rc != 0:
         sys.exit("/repo has uncommitted changes")
-    rc, out = sh(f"git -C /repo apply {patch}")
+    rc, out = sh(f"git -C {REPO} apply {patch}")
     if rc != 0:
         sys.exit("patch does not apply: " + out)
     fired = {}
     try:
         for i in ids:
             t = time.time()
-            rc, out = sh(f"./check {i} quick", cwd="/verif")
+            rc, out = sh(f"./check {i} quick", cwd=VERIF)
             keys = [l.strip()[5:] for l in out.splitlines() if l.strip().startswith("key:")]
             fired[i] = {"exit": rc, "keys": keys, "wall_s": round(time.time() - t, 1)}
             print(i, rc, keys, flush=True)
     finally:
-        sh("git -C /repo checkout -- .")
+        sh(f"git -C {REPO} checkout -- .")
     mp = f"{base}/meta.json"
     meta = json.load(open(mp)) if os.path.exists(mp) else {}
     meta.setdefault("runs", []).append({
         "verif_commit": sh("git -C /verif rev-parse --short HEAD")[1].strip(),
-        "repo_commit": sh("git -C /repo rev-parse --short HEAD")[1].strip(),
+        "repo_commit": sh(f"git -C {REPO} rev-parse --short HEAD")[1].strip(),
         "tier": "quick", "seed": int(os.environ.get("VERIF_SEED", "0")),
         "fired": {k: v for k, v in fired.items() if v["exit"] == 1},
         "inconclusive": [k for k, v in fired.items() if v["exit"] == 2],
